@@ -197,6 +197,35 @@ pub fn many_t_family() -> Vec<DiagSpec> {
     out
 }
 
+/// closed diagrams already in gadget form: k = 2..4 phase gadgets over the same support (size 2..3) — what
+/// full simplification fuses between decomposition steps
+pub fn gadget_group_family() -> Vec<DiagSpec> {
+    let mut out = vec![];
+    for m in 2..=3usize {
+        for kk in 2..=4usize {
+            for pat in 0..3 {
+                for extra in 0..2 {
+                    let mut d = DiagSpec::empty();
+                    let ns: Vec<u8> = (0..m).map(|i| d.add(1, [(1, 4), (3, 4), (1, 2)][(i + pat) % 3])).collect();
+                    for j in 0..kk {
+                        let h = d.add(1, (0, 1));
+                        let l = d.add(1, [(1, 4), (3, 4), (-1, 4), (1, 4)][(j + pat) % 4]);
+                        d.edges.push((h, l, true));
+                        for &x in &ns {
+                            d.edges.push((h, x, true));
+                        }
+                    }
+                    if extra == 1 {
+                        d.edges.push((ns[0], ns[1], true));
+                    }
+                    out.push(d);
+                }
+            }
+        }
+    }
+    out
+}
+
 // ---------------------------------------------------------------------------------------------
 // drivers / configurations
 // ---------------------------------------------------------------------------------------------
@@ -805,6 +834,7 @@ pub fn run(rep: &mut Report) {
         fams.push(("G(5 classes, {1/4,3/4})".into(), glike_family(5, false, &t2), false));
         fams.push(("cat stars in hosts".into(), cat_family(true), true));
         fams.push(("6/7-T families".into(), many_t_family(), true));
+        fams.push(("gadget groups".into(), gadget_group_family(), true));
     } else {
         let mut v = vec![];
         for n in 1..=4 {
@@ -815,6 +845,7 @@ pub fn run(rep: &mut Report) {
         fams.push(("G(6 classes, {1/4,3/4})".into(), glike_family(6, false, &t2), false));
         fams.push(("cat stars in hosts".into(), cat_family(false), true));
         fams.push(("6/7-T families".into(), many_t_family(), true));
+        fams.push(("gadget groups".into(), gadget_group_family(), true));
     }
     for (name, fam, with_par) in &fams {
         let t0 = Instant::now();
